@@ -98,6 +98,19 @@ def run_case(ctx, case, model=True):
         conv = np.asarray(conv, dtype=float)
         viol = [(float(a), float(b)) for a, b in zip(p, conv) if b > a + 1e-9 * max(1, abs(a))]
         ctx.count("converter_contract", "violated" if viol else "ok")
+        # the converter with NO oracle: its characteristic and its interpolated inverse computed by the model from the spec's
+        # points (Comp.invTable through Pchip); from here on the model's own values are what the storage model is given
+        if model and ctx.model_available:
+            cv = spec["converter"]["curve"]
+            cpts = [[enc(a), enc(b)] for a, b in (cv if isinstance(cv[0], list) else [[1.0, cv[0]]])]
+            try:
+                mconv = [dec(v) for v in ctx.model.call("comp.convert_modelled", rated=enc(spec["converter"]["rated"]), points=cpts,
+                                                        dir="out_from_in", p=[enc(x) for x in p])]
+                ctx.count("converter_modelled_without_oracle", spec["kind"])
+                if not all(close(a, float(b), scale=spec["converter"]["rated"]) for a, b in zip(mconv, conv)):
+                    ctx.fail("correspondence", "converter-modelled", f"model {[float(x) for x in mconv]} impl {conv.tolist()}", where)
+            except core.ModelReject as e:
+                ctx.fail("correspondence", "converter-model-rejects", f"{e}", where)
     else:
         conv = p.copy()
         viol = []
